@@ -365,6 +365,10 @@ def randomgen_corpus():
     # LatinSquare with a partial last segment
     add(D([A3, B3], cross('AB', 'A', [['LatinSquare', ['A', 'B']], ['MinimumTrials', 5]])))
     add(D([A3, B3], cross('AB', 'A', [['LatinSquare', ['A', 'B']], ['MinimumTrials', 8]])))
+    # Latin rectangles: a factor with fewer levels than the longest one cycles through its own levels
+    add(D([A3, B2], cross('AB', 'B', [['LatinSquare', ['A', 'B']], ['MinimumTrials', 7]])))
+    add(D([A2, B3], cross('AB', 'AB', [['LatinSquare', ['A', 'B']]])))
+    add(D([A2, B3, TRA], cross('ABR', 'R', [['LatinSquare', ['B', 'A']], ['MinimumTrials', 7]])))
     return out
 
 
@@ -512,6 +516,19 @@ def random_design(rnd, tmax=8):
         return D(base, nest(cross([a], [a], oc), cross([n for n in names if n != a], [b], ic)))
     cr = rnd.sample(crossable, 1)
     return D(factors, cross(design, cr, rand_constraints(design, 1), rcc))
+
+
+def formula_only_corpus():
+    """Designs checked through the compiled formula only (C01-C03): RandomGen's rejection loop practically never
+    accepts a draw for them, so the RandomGen-driven checks do not take them."""
+    out = []
+    # three-factor Latin rectangles: each shorter factor's offset wraps at its own level count (12 trials = all 4
+    # offset pairs of A, B against C; 15 = one pair reused)
+    out.append(D([A2, B2, C3], cross('ABC', '', [['LatinSquare', ['A', 'B', 'C']], ['MinimumTrials', 12]])))
+    out.append(D([A2, B2, C3], cross('ABC', 'C', [['LatinSquare', ['A', 'B', 'C']], ['MinimumTrials', 15]])))
+    out.append(D([A2, B3, C3], cross('ABC', 'A', [['LatinSquare', ['B', 'A', 'C']], ['MinimumTrials', 9]])))
+    out.append(D([A2, B3, C2], cross('ABC', 'AC', [['LatinSquare', ['A', 'B', 'C']], ['MinimumTrials', 8]])))
+    return out
 
 
 def designs(tier, seed, n=None):
